@@ -245,9 +245,11 @@ def run(spec, ctx):
         mx, mn = (2 ** 53) - 1, -(2 ** 53) + 1
         nenv = narrow_env()
         for e, lo, hi, cls in ((env, mn, mx, "default"), (nenv, -10, 10, "narrow")):
-            for v, ok in ((hi, True), (hi - 1, True), (hi + 1, False), (lo, True), (lo + 1, True), (lo - 1, False), (hi * 10, False), (lo * 10, False), (0, True), (-1, True)):
-                forms = ["$[%d]" % v, "$.a[%d]" % v, "$..[%d]" % v, "$[0,%d]" % v, "$[%d:]" % v, "$[:%d]" % v, "$[::%d]" % v, "$[1:%d:2]" % v,
-                         "$[?@[%d]]" % v, "$[?@.a[%d] == 1]" % v, "$[?count(@[%d:]) > 0]" % v, "$[ %d ]" % v, "$[1, %d:2]" % v]
+            # values as digit strings: thousands of digits are beyond what int() / str() convert (4300 by default)
+            long_ones = [(sign + d * n, False) for sign in ("", "-") for d in ("1", "9") for n in (20, 400, 4300, 4301, 6001)]
+            for v, ok in [(str(x), ok) for x, ok in ((hi, True), (hi - 1, True), (hi + 1, False), (lo, True), (lo + 1, True), (lo - 1, False), (hi * 10, False), (lo * 10, False), (0, True), (-1, True), (2 ** 63, False), (-2 ** 63 - 1, False), (10 ** 30, False))] + long_ones:
+                forms = ["$[%s]" % v, "$.a[%s]" % v, "$..[%s]" % v, "$[0,%s]" % v, "$[%s:]" % v, "$[:%s]" % v, "$[::%s]" % v, "$[1:%s:2]" % v,
+                         "$[?@[%s]]" % v, "$[?@.a[%s] == 1]" % v, "$[?count(@[%s:]) > 0]" % v, "$[ %s ]" % v, "$[1, %s:2]" % v, "$[?count(@[0, %s]) > 0]" % v]
                 for text in forms:
                     compile_case(ctx, e, text, ok, "%s:int-range" % cls, "index-or-slice-out-of-range")
                     ctx.cell("int_range", "%s %s %s" % (cls, "inside" if ok else "outside", "slice" if ":" in text else "index"))
